@@ -19,15 +19,22 @@ RULE = ('one call of a separation helper per case on real Stream / MultiStream o
         'call replaced by a table-driven (conserving or arbitrary) split, efficiencies, top_chemical, multi_stream with the '
         'right and wrong phases, phase_split, chemical_splits, material_balance(flow) with the real np.linalg solver '
         '(arguments A, b recorded and compared, contract A x = b checked on the returned x), the two-component closed form of '
-        'binary_phase_fraction.phase_fraction and the Rachford-Rice residual function. Compared: every outlet / '
+        'binary_phase_fraction.phase_fraction and the Rachford-Rice residual function. In the real-solver stream only '
+        'flx.find_bracket / IQ_interpolation is an oracle: phase_fraction / solve_phase_fraction_Rashford_Rice (exits on '
+        'the range of K guarded by the forced fractions, bracket ends, sign tests, as_valid_fraction) are modelled, the '
+        'value the numeric stage returned is recorded and handed to the model, with many cases having every K on one side of 1 '
+        'and forced top/bottom chemicals; phase_fraction is also called directly with 1-3 chemicals and forced fractions. '
+        'mix_and_split / mix_and_split_with_moisture_content also get a bottom outlet on another property package (superset, '
+        'reordered superset, subset) that is usually reused (already holds flows) and often receives nothing. Compared: every outlet / '
         'mutated inlet flow per phase (1e-9 relative), returned phase fraction, exception class, number of infeasibility '
         'warnings, phases of the outlets. non-trivial = the call returned normally and moved material, or took an '
         'infeasibility / clipping branch; distinct = distinct case hash')
 ASSUMPTIONS = [
     'float rounding is not modelled: values are compared to 1e-9 relative; generators avoid inputs whose branch decision '
     '(sign of the remaining permeate water, density tie, clip tie) is not decided by a clear margin in exact arithmetic',
-    'oracle: the phase-fraction solver (equilibrium.binary_phase_fraction.phase_fraction / Rachford-Rice) returns an arbitrary '
-    'number; partition_K_root additionally assumes it is a root of the Rachford-Rice residual',
+    'oracle: in the partition theorems the phase-fraction solver returns an arbitrary number; partition_K_root assumes it is a '
+    'root of the Rachford-Rice residual; partition_real_root derives that from the modelled wrapper plus the contract of the '
+    'numeric root finder (flx.find_bracket + flx.IQ_interpolation: an interior value it returns is a root)',
     'oracle: the LLE / VLE call of the working stream writes arbitrary rows; conservation of the wrappers is proved under '
     'the contract rowL + rowl = feed (rowg + rowl = feed)',
     'oracle: np.linalg.solve / lstsq with the contract A x = b (checked on every returned x in the correspondence)',
@@ -896,6 +903,8 @@ def classify(case, out):
     ks = ['fn:' + fn, 'outcome:' + (out.get('err') or 'ok')]
     if fn in ('partition', 'phase_fraction'):
         ks.append('solver:' + ('real' if case['phi'] is None else 'table'))
+        if case['phi'] is None:
+            ks.append('rr_stage:' + str(partition_stage(case)))
         ks.append(f'n_ids:{len(case["ids"])}')
         if case['topc'] or case['botc']:
             ks.append('forced:' + ('top' if case['topc'] else '') + ('bottom' if case['botc'] else ''))
